@@ -1,7 +1,7 @@
 from engine import G
 LEVEL = "other"
 LEVEL_TEXT = ("Mixed, per group: P/Pc = belt block function == STB 34.101.31 6.1 (8 rounds over the file's own G macros, z3), D(E(x)) == x, "
-              "G-macros == RotHi^r(H...), H table == its generator, key expansion -- all inputs.  B = ECB/CBC/CFB/CTR/MAC Start/Step functions == the "
+              "G-macros == RotHi^r(H...), H table == its generator, key expansion, beltBlockMulC, length-block additions -- all inputs.  B = ECB/CBC/CFB/CTR/MAC/BDE/WBL/SDE Start/Step functions == the "
               "standard's mode equations written over the same uninterpreted block function, and Decr o Encr == id, for every listed concrete "
               "message length (ragged tails, ciphertext stealing, all three key lengths), key/IV/contents symbolic, states of exactly _keep() octets.  "
               "X = beltFMTCalcB on its complete finite domain by native enumeration against exact big-integer powers.  N = native stand-ins (DWP "
